@@ -85,12 +85,15 @@ def jobs(tier):
           for fam, kind, impl, sizes, n, L, w in configs(tier)]
     # trees that are instances of an application subclass: roomy leaves (the root stays one embedded
     # leaf up to 4 keys, so conflicts are resolved at TREE level) and a split one
-    for fam in (('II', 'OO', 'fs') if tier == 'quick' else F.COVER):
+    for fam in ('II', 'OO', 'fs'):
         for impl in F.IMPLS:
             for kind in F.TREE_KINDS:
                 js.append({'fn': 'job', 'weight': 20, 'group': '%s/%s/subclass' % (impl, kind),
-                           'args': dict(fam=fam, kind=kind, impl=impl, sizes=(4, 2),
-                                        n=5 if tier == 'quick' else 6, L=1, subclass=True)})
+                           'args': dict(fam=fam, kind=kind, impl=impl, sizes=(4, 2), n=5, L=1, subclass=True)})
+                if tier != 'quick' and impl == 'c' and fam != 'fs':
+                    # six keys: the root splits, child nodes are instances of the subclass too
+                    js.append({'fn': 'job', 'weight': 60, 'group': '%s/%s/subclass' % (impl, kind),
+                               'args': dict(fam=fam, kind=kind, impl=impl, sizes=(4, 2), n=6, L=1, subclass=True)})
     return js
 
 
